@@ -49,6 +49,9 @@ def pool_json(g):
         M('T', ['nope', 's', 'a'], 'Type', docs.type_matcher(['nope', 's', 'a'], 'string', False), typ='string', eom=False),
         M('C', ['s'], 'Custom', docs.custom_matcher('s', False, 'boom', False), ok=False, eom=False),
         # a shared list of a dozen masks of which this document has none: a dozen failures, each one named
+        M('A', ['missing', 'a'], 'Any', docs.any_matcher(['missing', 'a'], None, False), eom=False),
+        M('A', ['a', 'missing', 's'], 'Any', docs.any_matcher(['a', 'missing', 's'], None, False), eom=False),
+        M('T', ['s', 'nope', 'a'], 'Type', docs.type_matcher(['s', 'nope', 'a'], 'string', False), typ='string', eom=False),
         M('A', ['gone%d' % i for i in range(12)], 'Any', docs.any_matcher(['gone%d' % i for i in range(12)])),
         M('T', ['o.gone%d' % i for i in range(11)] + ['a'], 'Type', docs.type_matcher(['o.gone%d' % i for i in range(11)] + ['a'], 'string'), typ='string'),
     ]
@@ -70,6 +73,12 @@ def pool_yaml(g):
         M('T', ['$.a'], 'Type', docs.type_matcher(['$.a'], 'string', False), typ='string', eom=False),
         M('C', ['$.s'], 'Custom', docs.custom_matcher('$.s', False, 'boom', False), ok=False, eom=False),
         M('A', ['$.gone%d' % i for i in range(12)], 'Any', docs.any_matcher(['$.gone%d' % i for i in range(12)])),
+        # ErrOnMissingPath(false) with several paths: a forgiven missing path that is NOT the last one must not end the
+        # walk - the paths after it are still checked / replaced
+        M('T', ['$.nope', '$.s', '$.a'], 'Type', docs.type_matcher(['$.nope', '$.s', '$.a'], 'string', False), typ='string', eom=False),
+        M('T', ['$.s', '$.nope', '$.a'], 'Type', docs.type_matcher(['$.s', '$.nope', '$.a'], 'string', False), typ='string', eom=False),
+        M('A', ['$.missing', '$.a'], 'Any', docs.any_matcher(['$.missing', '$.a'], None, False), eom=False),
+        M('A', ['$.a', '$.missing', '$.s'], 'Any', docs.any_matcher(['$.a', '$.missing', '$.s'], None, False), eom=False),
     ]
 
 
